@@ -33,7 +33,18 @@ def run(tier, seed):
         return False
 
     # directed: (a) two concurrent set! (repaired by a fix: commit -> regression), (b) engine idle in the host
-    d = sp.run_directed(["guard_dropped", "idle_engine"], work)
+    d = sp.run_directed(["guard_dropped", "idle_engine", "exit_during_wait"], work)
+    end, val, path = d["exit_during_wait"]
+    r.cov["evaluations"] += 1
+    waited = any('"ENUM_WAIT"' in l for l in open(path, errors="replace"))
+    r.cov["samples"].append({"scenario": "directed-exit_during_wait (a thread exits while a collector waits for it)", "end": end, "collector_waited": waited})
+    if not str(end.get("end", "")).startswith("ok"):
+        r.violation(f"a collection that waits for a thread which then exits does not finish: {end.get('end')} (last events {end.get('last')})",
+                    {"id": "directed-exit_during_wait", "trace": path, "end": end})
+    else:
+        r.cov["traces_validated_against_impl"] += 1
+        if not waited:
+            r.notes.append("directed exit_during_wait: the collector never had to wait this time (scenario did not hit its window)")
     end, val, path = d["guard_dropped"]
     r.cov["evaluations"] += 2
     r.cov["samples"].append({"scenario": "directed-guard_dropped (two threads set! a global)", "end": end})
